@@ -14,7 +14,7 @@ ALLCFG = ["default", "flushy", "flushy2", "manual", "bigvals", "valsep", "valsep
 PROPS = {
     # profile, checked classes, generator classes, iterator class for generated scripts
     "C01": dict(profile="C01", checked=["latest"], gen=["pt", "rk", "mt", "ig"], itercls="pos",
-                quick_cfgs=["default", "flushy", "manual", "bigvals", "oldfmv", "nolazy"]),
+                quick_cfgs=["default", "flushy", "manual", "bigvals", "oldfmv", "nolazy", "ext"]),
     # 2 prefixes x (bare + 5 suffixes): long version chains per prefix, so that a prefix straddles table boundaries
     "C02": dict(profile="C02", checked=["pos"], gen=["pt", "rk", "it", "it", "mt"], itercls="pos", masks=True, univ=(2, 5),
                 quick_cfgs=["default", "flushy", "manual", "nolazy", "valsep", "bigvals"]),
@@ -27,11 +27,11 @@ PROPS = {
     "C08": dict(profile="C08", checked=["rk"], gen=["rk", "rk", "pt", "it", "mt"], itercls="rk",
                 quick_cfgs=["default", "flushy", "flushy2", "manual", "nolazy", "oldfmv"]),
     "C09": dict(profile="C09", checked=["mask"], gen=["rk", "pt", "it", "it", "mt"], itercls="mask", masks=True,
-                quick_cfgs=["default", "flushy", "flushy2", "manual", "nolazy", "bigvals"]),
+                quick_cfgs=["default", "flushy", "flushy2", "manual", "nolazy", "ext", "extman"]),
     "C14": dict(profile="C14", checked=["latest", "snap", "view", "efos"], gen=["pt", "rk", "mt", "mt", "sn", "it"], itercls="view",
                 quick_cfgs=["flushy", "flushy2", "manual", "valsep", "bigvals", "oldfmv"]),
     "C36": dict(profile="C36", checked=["latest", "view"], gen=["ig", "ig", "pt", "rk", "it", "mt"], itercls="view",
-                quick_cfgs=["default", "flushy", "flushy2", "manual", "nolazy"]),
+                quick_cfgs=["default", "flushy", "flushy2", "manual", "nolazy", "ext"]),
     "C37": dict(profile="C37", checked=["efos"], gen=None,
                 quick_cfgs=["default", "flushy", "flushy2", "manual"]),
     "C38": dict(profile="C38", checked=["ckpt"], gen=None,
